@@ -43,7 +43,7 @@ ASSUMPTIONS = ["asyncio Task/Lock/Semaphore/Event semantics are the real ones; o
 LEVEL_TEXT = ("for each generated scenario every single-fault position over the await points of the fault-free run is "
               "enumerated (kinds: OSError, never-completes, client EOF before/after); scenarios themselves are sampled")
 LEVEL_NOTE = "trusts lib/simloop.py + lib/simhandler.py (fakes) and asyncio itself; multi-fault combinations only as generated"
-QUICK_N, THOROUGH_N = 4_500, 150_000  # base scenarios (~45 faulted runs each are counted as evaluations; ~840 runs/s/core)
+QUICK_N, THOROUGH_N = 4_000, 150_000  # base scenarios (~45 faulted runs each are counted as evaluations; ~840 runs/s/core)
 MAX_POINTS = 48
 
 KINDS_IO = ("err", "hang", "ceof", "ceof_after")
